@@ -78,7 +78,7 @@ func genScript(rt *rapid.T) Script {
 		s.Chunks = rapid.SliceOfN(rapid.IntRange(1, 120), 1, 6).Draw(rt, "chunks")
 	}
 	for i, n := 0, rapid.IntRange(0, 4).Draw(rt, "nrec"); i < n; i++ {
-		r := Rec{Kind: rapid.SampledFrom([]string{"ok", "ok", "ok", "neterr", "neterr", "502", "503", "404", "empty"}).Draw(rt, "rkind")}
+		r := Rec{Kind: rapid.SampledFrom([]string{"ok", "ok", "ok", "neterr", "neterr", "502", "503", "500", "504", "429", "404", "empty"}).Draw(rt, "rkind")}
 		if r.Kind == "ok" {
 			r.CutKind = rapid.SampledFrom([]string{"none", "err", "eof"}).Draw(rt, "rcutkind")
 			r.CutAt = rapid.IntRange(0, 2000).Draw(rt, "rcutat")
@@ -229,9 +229,9 @@ func (f *fake) ServeHTTP(w http.ResponseWriter, r *http.Request) {
 		f.mu.Unlock()
 		_ = k
 		switch rec.Kind {
-		case "502", "503":
+		case "500", "502", "503", "504", "429": // the statuses the SDK documents as transient
 			code, _ := strconv.Atoi(rec.Kind)
-			http.Error(w, "bad gateway", code)
+			http.Error(w, "try again", code)
 			return
 		case "404":
 			http.Error(w, "session not found", 404)
@@ -620,7 +620,7 @@ func runInBubble(s Script) (res vt.Result) {
 
 func has5xx(s Script) bool {
 	for _, r := range s.Reconnects {
-		if r.Kind == "502" || r.Kind == "503" {
+		if r.Kind == "500" || r.Kind == "502" || r.Kind == "503" || r.Kind == "504" || r.Kind == "429" {
 			return true
 		}
 	}
